@@ -264,6 +264,14 @@ class Check:
         res = smt.solve_many(jobs, workers)
         for i, r in res.items():
             self.obligations[i].result = r
+        # a time-out is never reported as success: a small number of timed-out queries is retried once with three times the
+        # budget (a loaded machine), and whatever is still undecided makes the check exit 3 (inconclusive) in finish()
+        late = [j for j in jobs if res[j[0]].status in ('timeout', 'unknown')]
+        if 0 < len(late) <= 8:
+            res2 = smt.solve_many([(i, txt, 3 * to, sv) for i, txt, to, sv in late], workers)
+            for i, r in res2.items():
+                r.secs += res[i].secs
+                self.obligations[i].result = r; res[i] = r
         return res
 
     def is_known(self, key):
@@ -344,5 +352,7 @@ class Check:
         if self.inconclusive:
             for x in self.inconclusive:
                 print(f'  INCONCLUSIVE {x}', flush=True)
+            return 3
+        if cov['undischarged']:
             return 3
         return 0
